@@ -77,7 +77,15 @@ def h_occupation(env, mapping, n, utd, n_electrons=None, spin=None, canary=False
         kw = dict(n_spinorbitals=n, up_then_down=utd)
         if scbk:
             kw.update(n_electrons=n_electrons, spin=spin)
-        q = fermion_to_qubit_mapping(FermionOperator(((p, 1), (p, 0))), mapping, **kw).terms
+        # the caller's number operator is built ONCE and encoded twice (e.g. once per state of a scan): the second encoding is the
+        # same operator and the caller's object is untouched
+        n_op = FermionOperator(((p, 1), (p, 0)))
+        before = dict(n_op.terms)
+        q = fermion_to_qubit_mapping(n_op, mapping, **kw).terms
+        q_again = fermion_to_qubit_mapping(n_op, mapping, **kw).terms
+        env.check_same(dict(n_op.terms), before, f"{mapping} utd={utd}: fermion_to_qubit_mapping leaves the caller's operator a_{p}^+ a_{p} unchanged")
+        env.check_same({k: complex(v) for k, v in q_again.items()}, {k: complex(v) for k, v in q.items()},
+                       f"{mapping} utd={utd}: encoding the same operator object a second time gives the same qubit operator")
         ref = {((p, 1), (p, 0)): 1}
         if canary and p == 1:
             ref = {((0, 1), (0, 0)): 1}          # wrong orbital
@@ -170,6 +178,17 @@ def h_reference(env, mapping, n, utd, simulate=True, canary=False):
             again = tuple(int(round(float(x))) for x in get_vector(n, ne, mapping, up_then_down=utd, spin=sp))
             circ = get_reference_circuit(n, ne, mapping, up_then_down=utd, spin=sp)
         env.check_same(again, vec, f"{mapping} n={n} N={ne} spin={sp} utd={utd}: get_vector gives the same vector after the caller edited an earlier result in place")
+        if sp is not None:
+            # n_electrons / spin computed with numpy arrive as numpy integers (e.g. occ[::2].sum() - occ[1::2].sum()): same state
+            import numpy as _np
+            with warnings.catch_warnings():
+                warnings.simplefilter("ignore")
+                for ity in (_np.int64, _np.int32, _np.int8):
+                    v_np = tuple(int(round(float(x))) for x in get_vector(n, ity(ne), mapping, up_then_down=utd, spin=ity(sp)))
+                    c_np = get_reference_circuit(n, ity(ne), mapping, up_then_down=utd, spin=ity(sp))
+                    env.check_same(v_np, vec, f"{mapping} n={n} N={ne} spin={sp} utd={utd}: get_vector with {ity.__name__} arguments == with Python ints")
+                    env.check_same(sorted((g.name, tuple(g.target)) for g in c_np._gates), sorted((g.name, tuple(g.target)) for g in circ._gates),
+                                   f"{mapping} n={n} N={ne} spin={sp} utd={utd}: get_reference_circuit with {ity.__name__} arguments == with Python ints")
         env.check_same(len(vec), nq, f"{mapping}: reference vector has {nq} entries")
         env.check_same(circ.width, nq, f"{mapping}: reference circuit acts on {nq} qubits")
         # the circuit prepares the basis state |vec>
